@@ -182,6 +182,13 @@ void run(const Spec &s) {
             pending_since_barrier.push_back(id);
             break;
         }
+        case 'L': {      // template start() with a NAMED functor that goes out of scope right after the call: the pool must own its own copy
+            int id = submitted++;
+            vs_event(EV_SUBMIT, id, 0);
+            { Functor f(id); try { pool->start(f, g_functor_arg); } catch (const std::system_error &) { vs_event(EV_OP_RET, 'e', 0); } }
+            pending_since_barrier.push_back(id);
+            break;
+        }
         case 'C': pool->clear(); pending_since_barrier.clear(); break;
         case 'X': {
             pool->stop();
@@ -269,7 +276,7 @@ void add(VSuite &suite, Spec s, int bound, const std::string &flavour) {
     VProgram p;
     p.name = s.script + "-max" + std::to_string(s.maxThreads) + (s.expiry >= 0 ? "-expiry" + std::to_string(s.expiry) : "") + (s.spurious ? "+spurious" : "") + (s.create_faults ? "+nothread" : "") + (s.stateful ? "@all" : "");
     p.spurious = s.spurious; p.stateful = s.stateful; p.create_faults = s.create_faults;
-    p.describe = "owner script " + s.script + " (S start task, F start a functor through the template start(), C clear, X stop, W wait until all submitted tasks are destroyed, U update, A advance the clock past the expiry timeout, G getters), maxThreadCount=" +
+    p.describe = "owner script " + s.script + " (S start task, F start a functor through the template start(), L the same with a named functor that dies right after the call, C clear, X stop, W wait until all submitted tasks are destroyed, U update, A advance the clock past the expiry timeout, G getters), maxThreadCount=" +
                  std::to_string(s.maxThreads) + ", expiryTimeout=" + std::to_string(s.expiry) + "; every task has a scheduling point inside run()" + (s.spurious ? "; one spurious wake-up of a waiting worker may happen anywhere (costs 1 like a preemption)" : "") +
                  (s.create_faults ? "; the creation of one worker thread may fail with EAGAIN (costs 1 like a preemption): start() throws, the owner catches and carries on" : "");
     p.bound = bound;
@@ -312,6 +319,8 @@ bool provider(const std::string &prop, const std::string &tier, const std::strin
     { Spec s = base; s.script = "SSCSX"; s.maxThreads = 2; add(suite, s, 2, flavour); }
     { Spec s = base; s.script = "FFWX"; s.maxThreads = 2; add(suite, s, 2, flavour); }          // template start(T, Args&&...)
     { Spec s = base; s.script = "FSCFX"; s.maxThreads = 1; add(suite, s, 3, flavour); }
+    { Spec s = base; s.script = "LLWX"; s.maxThreads = 1; add(suite, s, 2, flavour); }           // named functors that die before the worker gets to them
+    { Spec s = base; s.script = "SLX"; s.maxThreads = 2; add(suite, s, 2, flavour); }
     // ---- stateful pass: ALL schedules of these scripts
     if (flavour == "plain" || flavour == "hooked") {
         for (int mt : {1, 2}) for (const char *sc : {"SWX", "SX", "SSWX", "SSX", "SCSWX", "SXSWX", "SSCX", "SWSWX", "SWXX"}) { Spec s = base; s.script = sc; s.maxThreads = mt; s.stateful = true; add(suite, s, 0, flavour); }
